@@ -9,6 +9,7 @@ the property; they see the real database after every request.
 from __future__ import annotations
 
 import collections
+import os
 
 import common
 import corr_kernel
@@ -29,15 +30,81 @@ def decode_line(line: str) -> str:
     return re.sub(r"\b(?:[0-9a-f]{2}){2,}\b", dec, line)
 
 
-async def run(ctx, scopes: set[str], observers=(), *, quick=(120, 60), thorough=(2500, 80), exotic_share=0.2,
+class WorkerDone(Exception):
+    """Raised inside a worker process when its share of the sequences is done."""
+
+
+def _workers() -> int:
+    try:
+        return max(1, min(12, int(os.environ.get("VERIF_WORKERS", "") or (os.cpu_count() or 2) - 2)))
+    except ValueError:
+        return 4
+
+
+async def _run_sharded(ctx, nseq: int, salt: str):
+    """Thorough tier: the sequences are generated and compared in worker processes (one share of the
+    index range each: the sequence with index i is the same whatever the number of workers); their
+    statistics, disagreements and findings are merged into `ctx`."""
+    import asyncio
+    import json
+    import sys
+
+    n = _workers()
+    bounds = [(k * nseq // n, (k + 1) * nseq // n) for k in range(n)]
+    here = os.path.dirname(os.path.abspath(__file__))
+
+    async def one(lo, hi):
+        env = dict(os.environ, VERIF_KRANGE=f"{salt}:{lo}:{hi}", VERIF_TIER=ctx.tier, VERIF_SEED=str(ctx.seed))
+        proc = await asyncio.create_subprocess_exec(sys.executable, os.path.join(here, "kworker.py"), ctx.pid,
+                                                    stdout=asyncio.subprocess.PIPE, stderr=asyncio.subprocess.PIPE,
+                                                    env=env)
+        out, err = await proc.communicate()
+        if proc.returncode != 0:
+            raise RuntimeError(f"kernel correspondence worker [{lo},{hi}) failed: {err.decode()[-1500:]}")
+        return json.loads(out.decode().splitlines()[-1])
+
+    results = await asyncio.gather(*[one(lo, hi) for lo, hi in bounds if hi > lo])
+    st = ctx.stats
+    for res in results:
+        st.evaluations += res["evaluations"]
+        st.programs += res["programs"]
+        st.disagreements += res["disagreements_n"]
+        st.distinct.update(res["distinct"])
+        for k, v in res["distribution"].items():
+            st.count(k, v)
+        for smp in res["samples"]:
+            st.sample(smp)
+        if not st.rule:
+            st.rule = res["rule"]
+        ctx.disagreements.extend(res["disagreements"][: max(0, 20 - len(ctx.disagreements))])
+        for f in res["findings"]:
+            ctx.finding(common.Finding(**f))
+        for k, v in res["extra"].items():
+            if isinstance(v, (int, float)) and k.startswith("kernel_"):
+                ctx.extra[k] = ctx.extra.get(k, 0) + v
+    ctx.extra["kernel_workers"] = len(results)
+    ctx.extra["kernel_distinct_states"] = len({d for d in st.distinct if isinstance(d, str)})
+
+
+async def run(ctx, scopes: set[str], observers=(), *, quick=(120, 60), thorough=(6000, 80), exotic_share=0.2,
               salt="kcorr"):
     nseq, nops = quick if ctx.tier == "quick" else thorough
+    krange = os.environ.get("VERIF_KRANGE", "")
+    lo, hi = 0, nseq
+    if krange:
+        wsalt, a, b = krange.rsplit(":", 2)
+        if wsalt != salt:
+            return  # another kernel stream of the same check: not this worker's share
+        lo, hi = int(a), int(b)
+    elif ctx.tier == "thorough" and nseq >= 200 and _workers() > 1:
+        await _run_sharded(ctx, nseq, salt)
+        return
     st = ctx.stats
     opcount = collections.Counter()
     errcount = collections.Counter()
     digests = set()
     diverged = 0
-    for i in range(nseq):
+    for i in range(lo, hi):
         r = ctx.rng(salt, i)
         exotic = r.random() < exotic_share
         run_ = corr_kernel.KernelRun(r, exotic=exotic)
@@ -68,15 +135,17 @@ async def run(ctx, scopes: set[str], observers=(), *, quick=(120, 60), thorough=
                        "answers": run_.impl[:10]})
     for d in digests:
         st.distinct.add(d)
-    st.programs += nseq
+    st.programs += hi - lo
     for k, v in opcount.items():
         st.count("kernel-op:" + k, v)
     for k, v in errcount.items():
         st.count("kernel-rejected:" + k, v)
-    ctx.extra["kernel_sequences"] = nseq
+    ctx.extra["kernel_sequences"] = hi - lo
     ctx.extra["kernel_sequences_diverged"] = diverged
     ctx.extra["kernel_distinct_states"] = len(digests)
     if not st.rule:
         st.rule = ("request sequences of ~%d requests over a universe of 10 paths, 9 commands, 2 env vars, 2 resources; "
                    "creators are RUNNING steps 93%% of the time; %d%% of the sequences add malformed requests; a case is "
                    "one request; distinct = distinct canonical database states reached" % (nops, int(exotic_share * 100)))
+    if krange:
+        raise WorkerDone()
